@@ -386,6 +386,9 @@ class ListOfDirectPredecessorsGetter(
             self, expr: DictOfNamedArrays) -> list[ArrayOrNames]:
         return list(expr._data.values())
 
+    def map_named_array(self, expr: NamedArray) -> list[ArrayOrNames]:
+        return [expr._container]
+
     def map_index_lambda(self, expr: IndexLambda) -> list[ArrayOrNames]:
         return self._get_preds_from_shape(expr.shape) + list(expr.bindings.values())
 
